@@ -137,8 +137,18 @@ impl TcpStream {
         Ok(())
     }
 
+    /// As with a real socket, the peer's address of a connection that the peer has already
+    /// reset is gone (`ENOTCONN`).
     pub fn peer_addr(&self) -> io::Result<SocketAddr> {
-        Ok(SocketAddr::new(IpAddr::V4(std::net::Ipv4Addr::new(127, 0, 0, 1)), 1))
+        let (_, _, reset) = self.ep.readable_now();
+        if reset {
+            return Err(io::Error::from_raw_os_error(107));
+        }
+        Ok(SocketAddr::new(IpAddr::V4(std::net::Ipv4Addr::new(127, 0, 0, 1)), 40_000 + (self.ep.conn_id() % 20_000) as u16))
+    }
+
+    pub fn local_addr(&self) -> io::Result<SocketAddr> {
+        Ok(SocketAddr::new(IpAddr::V4(std::net::Ipv4Addr::new(127, 0, 0, 1)), 6379))
     }
 }
 
